@@ -6,7 +6,8 @@ from .. import coqenc as q
 
 ID = 'C07'
 RULE = ('exhaustive small scope: every cluster-assignment vector up to the tier\'s length bound over the '
-        'gapped alphabet {0,2,3,7} (with and without a spike-id vector; requested cluster lists = every '
+        'gapped alphabet {0,2,3,7} (every vector without a spike-id vector; with one for every vector below the '
+        'bound and a quarter (quick) / half (thorough) of those at the bound; requested cluster lists = every '
         'subset of {0,1,2,3,7,9} on the shorter vectors, unsorted/duplicated/absent lists on the longer '
         'ones), every permutation of every subset of the alphabet as unsorted lookup; each abstract input '
         'is run under every dtype of int32/int64/uint16/uint32 that can hold it and every distinct '
@@ -209,7 +210,7 @@ def generate(tier, rng):
     # ---- grouping: every vector, without and with a spike-id vector
     for n, v in enumerate(_vectors(ALPHA, L)):
         cases.append(_case('spc', sc=v, ids=None, dts=DT_ALL))
-        if v and (not quick or len(v) < L or n % 4 == 0):
+        if v and (len(v) < L or n % (4 if quick else 2) == 0):
             ids = _rand_ids(rng, len(v))
             cases.append(_case('spc', sc=v, ids=ids, dts=DT_ALL))
     # ---- selection: every subset of REQ on short vectors; unsorted/duplicated lists on the long ones
@@ -218,10 +219,9 @@ def generate(tier, rng):
         for s in subsets:
             cases.append(_case('sic', sc=v, cl=s, dts=DT_ALL))
     for v in _vectors(ALPHA, L, LS + 1):
-        for _ in range(1 if quick else 2):
-            cases.append(_case('sic', sc=v, cl=_rand_req(rng, REQ), dts=DT_ALL))
+        cases.append(_case('sic', sc=v, cl=_rand_req(rng, REQ), dts=DT_ALL))
     # ---- unique
-    for v in _vectors(ALPHA, L - 1 if quick else L):
+    for v in _vectors(ALPHA, L - 1):          # order-insensitive: one length less than grouping
         cases.append(_case('unique', x=v, dts=DT_ALL))
     for v in _vectors((-1,) + ALPHA, 4 if quick else 5, 1):
         if -1 in v:
